@@ -226,7 +226,7 @@ pub fn phases(cfg: &Cfg) -> Vec<Box<dyn Phase>> {
             maxlen: if t { 6 } else { 5 },
         }),
         Box::new(RandomSeq {
-            n: cfg.n(150_000, 5_000_000),
+            n: cfg.n(400_000, 5_000_000),
         }),
     ]
 }
